@@ -511,8 +511,8 @@ def main(out_path):
     L.append('    (name, fixed field types, TLVs (type, payload type), ends with read_to_end excess data,')
     L.append('     index of the u8 field whose low bit must be set (checked after all fields were read)) -/')
     L.append('def handPinned : List HandLayout := [')
-    L.append(',\n'.join('  ⟨"%s", [%s], [%s], %s, %s⟩ /- msgs.rs read line %d, write line %d -/' % (
-        h['name'], ', '.join(lean_ty(t) for _, t, _ in h['fixed']), ', '.join('(%d, %s)' % (typ, lean_ty(t)) for typ, _, t, _ in h['tlvs']),
+    L.append(',\n'.join('  ⟨"%s", [%s], [%s], [%s], %s, %s⟩ /- msgs.rs read line %d, write line %d -/' % (
+        h['name'], ', '.join('"%s"' % f for f, _, _ in h['fixed']), ', '.join(lean_ty(t) for _, t, _ in h['fixed']), ', '.join('(%d, %s)' % (typ, lean_ty(t)) for typ, _, t, _ in h['tlvs']),
         'true' if h['tail'] else 'false', 'none' if h.get('post') is None else 'some %d' % h['post'], h['line'], h['wline']) for h in hand) + ']')
     L.append('')
     L.append('end Ldk.Codec.Gen')
